@@ -11,7 +11,7 @@ VARIABLES l
 vars == <<l>>
 Init == l = 1
 IsEv(e) == l <= Len(Trace) /\ Trace[l].ev = e /\ l' = l + 1
-Next == IsEv("reset") \/ IsEv("walk") \/ (l = Len(Trace) + 1 /\ UNCHANGED l)
+Next == IsEv("crash") \/ IsEv("reset") \/ IsEv("walk") \/ (l = Len(Trace) + 1 /\ UNCHANGED l)
 TraceSpec == Init /\ [][Next]_vars
 Has == l > 1
 Ev == Trace[l - 1]
@@ -22,7 +22,8 @@ MPaths == [k \in 1 .. Len(Ev.matches) |-> Ev.matches[k].path]
 SeqSet(s) == {s[k] : k \in 1 .. Len(s)}
 TargetMatches == {k \in 1 .. Len(Ev.matches) : Ev.matches[k].path = Ev.segs}
 
-Cond_NoPanic == IsW => Ev.e \notin {"panic", "compile"}
+NoCrash == ~(l > 1 /\ Trace[l - 1].ev = "crash")   \* the code under test took the whole harness process down (driver: mark_crash)
+Cond_NoPanic == NoCrash /\ (IsW => Ev.e \notin {"panic", "compile"})
 \* the named entity is matched exactly once, last, with the right kind and payload
 Cond_C03_Target == (IsW /\ Tgt # None /\ HasMatcher(Ev.target)) =>
     /\ Cardinality(TargetMatches) = 1
@@ -30,7 +31,7 @@ Cond_C03_Target == (IsW /\ Tgt # None /\ HasMatcher(Ev.target)) =>
     /\ LET m == Ev.matches[Len(Ev.matches)] IN
        /\ m.kind = KindOf(Tgt)
        /\ ~Ev.passive => (IF KindOf(Tgt) = "bytes" THEN m.bytesOK
-                          ELSE SeqSet(m.names) = KidNames(Tgt) /\ Len(m.names) = Len(Tgt.kids))
+                          ELSE SeqSet(m.names) = KidNames(Tgt) /\ Len(m.names) = Len(Tgt.kids) /\ m.linksOK)
 \* nothing but the expected nodes is matched; a path naming no entry does not match its (non-)target
 Cond_C03_NothingElse == IsW =>
     /\ \A k \in 1 .. Len(MPaths) :
